@@ -8,6 +8,7 @@ import Driver.Conc.Main
 import Driver.GCMon.Main
 import Driver.Immix.Main
 import Driver.Sched.Main
+import Driver.Los.Main
 /-!
 # `mmtk_model`: the executable model behind the line protocol
 
@@ -27,6 +28,7 @@ structure St where
   gcmon : Driver.GCMon.Pkg.St := {}
   immix : Driver.Immix.St := {}
   sched : Driver.Sched.St := {}
+  los : Driver.Los.St := {}
 
 def step (st : St) (line : String) : St × Option String :=
   match tokens line with
@@ -65,6 +67,9 @@ def step (st : St) (line : String) : St × Option String :=
     | none =>
     match Driver.Sched.stepPkg st.sched toks with
     | some (s, o) => ({ st with sched := s }, some o)
+    | none =>
+    match Driver.Los.step st.los toks with
+    | some (s, o) => ({ st with los := s }, some o)
     | none => (st, some "bad-op")
 
 partial def loop (h : IO.FS.Stream) (out : IO.FS.Stream) (st : St) : IO Unit := do
